@@ -38,6 +38,8 @@ def units(tier, seed):
     us = []
     for (cid, kind, kw, dom) in AR.configs():
         us.append(('single', cid, 3 if tier == 'thorough' else 2))
+        if cid != 'null':
+            us.append(('single', cid, 2, 'prefix-keys'))
         n, ln = (200, 12) if tier == 'thorough' else (40, 8)
         us.append(('walk', cid, n, ln, seed))
     return us
@@ -54,7 +56,8 @@ def _ops(keys, values, cid=None):
         ops.append(('setitem_bad_then_other_handle', keys[0]))
     ops += [('len',), ('keys',), ('values',), ('items',), ('iter',), ('popitem',), ('clear',), ('copy',), ('copy_named',), ('eq',), ('eq_none',),
             ('update', ((keys[0], values[2]), (keys[-1], values[4]))), ('update_kw',),
-            ('popkeys', (keys[0], keys[1])), ('popkeys', (keys[0], keys[1]), 'dflt')]
+            ('popkeys', (keys[0], keys[1])), ('popkeys', (keys[0], keys[1]), 'dflt'),
+            ('popkeys', (keys[0], keys[1], keys[0])), ('popkeys', (keys[0], keys[0]), 'dflt')]
     return ops
 
 
@@ -107,9 +110,12 @@ def apply_model(m, op):
             ks = op[1]
             if len(op) == 3:
                 return [m.pop(k, op[2]) for k in ks], m
-            if any(k not in m for k in ks):
+            trial = dict(m)         # all or nothing, also when a key is listed twice
+            try:
+                r = [trial.pop(k) for k in ks]
+            except KeyError:
                 return KeyError, dict(m)
-            return [m.pop(k) for k in ks], m
+            return r, trial
     except KeyError:
         return KeyError, m
     raise ValueError(op)
@@ -276,6 +282,12 @@ def klass_of(cid, op, clause, model):
     k = _klass_of(cid, op, clause, model)
     if cid == 'dir-source':
         return 'dir_archive(serialized=False): entries are read back through the import system (finder cache, package import of the key file)'
+    if cid.startswith('dir'):
+        key = op[1] if len(op) > 1 else None
+        involved = list(model.keys()) + (list(key) if isinstance(key, tuple) and op[0] in ('update', 'popkeys') else [key])
+        involved = [x[0] if isinstance(x, tuple) and op[0] == 'update' else x for x in involved]
+        if any(isinstance(x, str) and x.startswith('.I_') for x in involved):
+            return 'dir_archive: a key that begins with the marker of temporary entries (.I_) is stored but hidden from listings'
     if cid.startswith('dir') and 'coincide' in k:
         return 'dir_archive: distinct keys map to one entry name (str(key) with - replaced by _)'
     if cid.startswith('dir') and op[0] == 'setitem_bad':
@@ -321,6 +333,9 @@ def run_unit(unit):
     cid = unit[1]
     dom = AR.kd(cid)
     keys, values = AR.KEYS[dom], AR.VALUES[dom]
+    keyset = unit[3] if unit[0] == 'single' and len(unit) > 3 else None
+    if keyset == 'prefix-keys':
+        keys = AR.PREFIX_KEYS
     root = AR.new_root()
     try:
         sib = AR.open_archive(cid, root, 'sibling')
@@ -345,19 +360,19 @@ def run_unit(unit):
                         start = AR.contents(a)
                     except Exception as e:      # noqa
                         _v(out, seen, 'setup', klass_of(cid, ('setitem',), 'setup', model) if cid == 'dir-source' else '%s: cannot build the prior state' % cid, 'building %r failed: %r' % (model, e),
-                           {'unit': 'single', 'cid': cid, 'maxn': maxn, 'state': si, 'op': oi})
+                           {'unit': 'single', 'cid': cid, 'maxn': maxn, 'state': si, 'op': oi, 'keyset': keyset})
                         break
                     if start != model:
                         _v(out, seen, 'contents', klass_of(cid, ('setitem',), 'building a state', model),
                            'after clear() and storing %r the archive holds %r' % (model, start),
-                           {'unit': 'single', 'cid': cid, 'maxn': maxn, 'state': si, 'op': -1})
+                           {'unit': 'single', 'cid': cid, 'maxn': maxn, 'state': si, 'op': -1, 'keyset': keyset})
                         break
                     out['evaluations'] += 1
                     out['distinct'] += 1
                     bad, _ = run_op(a, model, op, ctx)
                     for (clause, msg) in bad:
                         _v(out, seen, clause, klass_of(cid, op, clause, model), '%s: %s' % (cid, msg),
-                           {'unit': 'single', 'cid': cid, 'maxn': maxn, 'state': si, 'op': oi})
+                           {'unit': 'single', 'cid': cid, 'maxn': maxn, 'state': si, 'op': oi, 'keyset': keyset})
             out['samples'].append({'configuration': cid, 'prior_states': len(states), 'operations_per_state': len(ops),
                                    'example': repr(ops[3])})
         else:
@@ -406,6 +421,8 @@ def replay(w):
     cid = w['cid']
     dom = AR.kd(cid)
     keys, values = AR.KEYS[dom], AR.VALUES[dom]
+    if w.get('keyset') == 'prefix-keys':
+        keys = AR.PREFIX_KEYS
     ops = _ops(keys, values, cid)
     root = AR.new_root()
     try:
